@@ -81,7 +81,7 @@ def check_case(sink, c, o):  # noqa: C901
                     if cls is optree.StructSequenceEntry and e.field != optree.structseq_fields(ntype)[entry]:
                         ok = False
                         break
-                    if cls is optree.DataclassEntry and e.name != entry:
+                    if cls is optree.DataclassEntry and e.name != (entry if isinstance(entry, str) else [f.name for f in __import__('dataclasses').fields(ntype) if f.init][entry]):
                         ok = False
                         break
             sink.check(ok, 'entry-typing', 'each entry is typed with the parent node type/kind and the documented entry class', ident,
@@ -133,11 +133,34 @@ def check_case(sink, c, o):  # noqa: C901
     sink.case(harness.fp(c.desc.short(), o.key()), harness.nontrivial(ref.shape, c.mat), dict(ident, n=n, first_accessor=repr(accs[0])[:200] if accs else None))
 
 
+def real_structseq_probe(sink):
+    """Struct sequences as the interpreter really produces them (with unnamed / extra fields)."""
+    import os
+    import sys
+    import time
+
+    for name, t in (('os.stat_result', os.stat('/')), ('time.struct_time', time.localtime(0)), ('sys.float_info', sys.float_info), ('os.times_result', os.times()), ('sys.version_info', sys.version_info)):
+        accs, leaves, spec = optree.tree_flatten_with_accessor([t, {'k': t}])
+        ident = dict(part='real-structseq', type=name)
+        for i, (a, leaf) in enumerate(zip(accs, leaves)):
+            sink.check(a(t if False else [t, {'k': t}]) is leaf, 'accessor-hits-leaf', 'accessor[i](tree) is leaf[i]', dict(ident, i=i), repr(a))
+            code = a.codify('t')
+            try:
+                val = eval(code, {'t': [t, {'k': t}]})  # noqa: S307
+            except Exception as e:  # noqa: BLE001
+                val = e
+            unnamed = isinstance(a[-1], optree.StructSequenceEntry) and a[-1].entry >= type(t).n_sequence_fields - type(t).n_unnamed_fields
+            sink.check(val is leaf, 'codify-eval/structseq-unnamed-field' if unnamed else 'codify-eval', 'eval(accessor.codify("t")) is the leaf', dict(ident, i=i, code=code), lambda: dict(got=repr(val), want=repr(leaf)))
+        sink.count('real-structseq-probes')
+
+
 def run_shard(sink, tier, seed, shard):
     n_trees = harness.scale(12000, 200000, tier)
     k = 5 if tier == 'quick' else 8
     opts = gen.all_opts()
     i0, step = (shard or {}).get('i', 0), (shard or {}).get('n', 1)
+    if i0 == 0:
+        sink.guard('harness', 'real-structseq', {}, lambda: real_structseq_probe(sink))
     for idx in range(i0, n_trees, step):
         c = harness.make_case('c04', seed, idx, profile=['mixed', 'custom', 'dicts', 'seq', 'plain', 'custom', 'wide'][idx % 7])
         for o in harness.opts_for(idx, k, opts):
@@ -147,6 +170,7 @@ def run_shard(sink, tier, seed, shard):
 def finalize(sink, tier, seed):
     sink.require('oracle:accessor[i](tree) is leaf[i]')
     sink.require('codify-evaluated')
+    sink.require('real-structseq-probes')
     for cell in ('entry/FlattenedEntry/CUSTOM', 'entry/DataclassEntry/CUSTOM', 'entry/NamedTupleEntry/NAMEDTUPLE', 'entry/StructSequenceEntry/STRUCTSEQUENCE',
                  'entry/MyEntry/CUSTOM', 'entry/GetAttrEntry/CUSTOM', 'entry/MappingEntry/CUSTOM', 'entry/SequenceEntry/DEQUE'):
         if sink.cells.get(cell, 0) == 0:
